@@ -122,6 +122,12 @@ def snippet(body):
             "from unyt import unyt_array, unyt_quantity, Unit\n" + REF_SRC + "\n" + body)
 
 
+def guarded(src):
+    """operand construction; a unit the tree does not know is not a violation (nothing is returned)"""
+    body = "".join("    " + l + "\n" for l in src.strip().split("\n"))
+    return "try:\n" + body + "except unyt.exceptions.UnitParseError:\n    raise SystemExit(0)  # unit unknown to this tree\n"
+
+
 RAISES_SRC = '''
 def raises(f):
     try:
@@ -304,7 +310,7 @@ def run(tier, seed):
                         chk.case(("bin", op, u0.name, u1.name, fname, okind),
                                  {"op": op, "form": fname, "u0": u0.spelling, "u1": u1.spelling, "x0": xs0, "x1": xs1}
                                  if rng.random() < 0.0005 else None)
-                        src = f"a = {mk_src(okind, xs0, u0.spelling)}\nb = {mk_src(okind, xs1, u1.spelling)}\n"
+                        src = guarded(f"a = {mk_src(okind, xs0, u0.spelling)}\nb = {mk_src(okind, xs1, u1.spelling)}\n")
                         if res[0] == "ok":
                             r = res[1]
                             label = repr(getattr(r, "units", None))
@@ -339,7 +345,7 @@ def run(tier, seed):
                 if res[0] == "ok":
                     got = [bool(x) for x in np.asarray(res[1]).ravel()]
                     outcomes[fname] = ("ok", pyop, got)
-                    src = f"a = {mk_src('a', xs0, u0.spelling)}\nb = {mk_src('a', xs1, u1.spelling)}\n"
+                    src = guarded(f"a = {mk_src('a', xs0, u0.spelling)}\nb = {mk_src('a', xs1, u1.spelling)}\n")
                     if mixed:
                         chk.fail(f"no-refusal|compare|{pairkey}", f"{u0.spelling} {fname} {u1.spelling} (two different offset scales) returned {got}",
                                  {"python": snippet(src + RAISES_SRC + f"def f():\n    {code}\n    return r\nbad, r = raises(f)\nassert bad, r\n"), "form": fname})
@@ -374,7 +380,7 @@ def run(tier, seed):
                         r = res[1]
                         outcomes[fname] = ("ok", float(r.units.base_value), vals(r))
                         if u0.kind == "point" or u1.kind == "point":
-                            src = f"a = {mk_src('a', xs0, u0.spelling)}\nb = {mk_src('a', xs1nz, u1.spelling)}\n"
+                            src = guarded(f"a = {mk_src('a', xs0, u0.spelling)}\nb = {mk_src('a', xs1nz, u1.spelling)}\n")
                             chk.fail(f"no-refusal|{op}|{pairkey}", f"{u0.spelling} {op} {u1.spelling} with an offset-scale operand returned {r!r}",
                                      {"python": snippet(src + RAISES_SRC + f"def f():\n    {code.replace('; ', chr(10) + '    ')}\n    return r\nbad, r = raises(f)\nassert bad, r\n"), "form": fname})
                     else:
@@ -442,7 +448,7 @@ def run(tier, seed):
             fam = {"mulreduce": "multiply.reduce"}.get(mop, mop)  # the ufunc / reduction the form reaches
             if res[0] == "ok" and u.kind == "point":
                 chk.fail(f"no-refusal|{fam}|{u.shape}", f"{expr} on an offset-scale quantity ({u.spelling}) returned {res[1]!r} instead of raising",
-                         {"python": snippet(RAISES_SRC + f"a = unyt_array({xs!r}, {u.spelling!r})\nbad, r = raises(lambda: {expr})\nassert bad, r\n")})
+                         {"python": snippet(RAISES_SRC + guarded(f"a = unyt_array({xs!r}, {u.spelling!r})") + f"bad, r = raises(lambda: {expr})\nassert bad, r\n")})
             ask(f"c08.unary\t{mop}\t{marg}\t{u.wire}", ("unary", u, expr, res))
         # reductions of add / subtract
         for rule, expr in (("preserve", "np.add.reduce(a)"), ("preserve", "a.sum()"), ("preserve", "np.cumsum(a)"), ("difference", "np.subtract.reduce(a)")):
@@ -461,7 +467,7 @@ def run(tier, seed):
                     msg = str(e)
                 if msg:
                     chk.fail(f"wrong-value|subtract.reduce|{u.shape}", msg,
-                             {"python": snippet(f"a = unyt_array({xs[:2]!r}, {u.spelling!r})\nr = {expr}\nm = t_check_additive('sub', {u.name!r}, {xs[:1]!r}, {u.name!r}, {xs[1:2]!r}, repr(r.units), [float(v) for v in np.asarray(r).ravel()])\nassert m is None, m\n")})
+                             {"python": snippet(guarded(f"a = unyt_array({xs[:2]!r}, {u.spelling!r})") + f"try:\n    r = {expr}\nexcept Exception:\n    raise SystemExit(0)  # refused: nothing returned\nm = t_check_additive('sub', {u.name!r}, {xs[:1]!r}, {u.name!r}, {xs[1:2]!r}, repr(r.units), [float(v) for v in np.asarray(r).ravel()])\nassert m is None, m\n")})
             ask(f"c08.reduce\t{rule}\t{u.wire}", ("reduce", u, expr, res))
         # diff / ediff1d / ptp
         ys = readings(rng, 3)
@@ -476,7 +482,7 @@ def run(tier, seed):
                 pairs = [(min(ys), max(ys))]
             else:
                 pairs = list(zip(ys[:-1], ys[1:]))
-            if res[0] == "ok" and u.kind == "diff":
+            if res[0] == "ok":  # difference − difference or point − point
                 r = res[1]
                 try:
                     msg = t_check_additive("sub", u.name, [p[1] for p in pairs], u.name, [p[0] for p in pairs], repr(r.units), vals(r))
@@ -484,7 +490,7 @@ def run(tier, seed):
                     msg = str(e)
                 if msg:
                     chk.fail(f"wrong-value|{fn}|{u.shape}", f"{expr} on {ys} [{u.spelling}]: " + msg,
-                             {"python": snippet(f"a = unyt_array({ys!r}, {u.spelling!r})\nr = {expr}\nm = t_check_additive('sub', {u.name!r}, {[p[1] for p in pairs]!r}, {u.name!r}, {[p[0] for p in pairs]!r}, repr(r.units), [float(v) for v in np.asarray(r).ravel()])\nassert m is None, m\n")})
+                             {"python": snippet(guarded(f"a = unyt_array({ys!r}, {u.spelling!r})") + f"try:\n    r = {expr}\nexcept Exception:\n    raise SystemExit(0)  # refused: nothing returned\nm = t_check_additive('sub', {u.name!r}, {[p[1] for p in pairs]!r}, {u.name!r}, {[p[0] for p in pairs]!r}, repr(r.units), [float(v) for v in np.asarray(r).ravel()])\nassert m is None, m\n")})
             ask(f"c08.diff\t{u.wire}\t{f2b(pairs[0][0])}\t{f2b(pairs[0][1])}", ("diff", u, expr, res))
 
     # ---- conversions over all ordered pairs ---------------------------------------------------
@@ -508,7 +514,7 @@ def run(tier, seed):
                     r = ns["r"]
                 except Exception as e:  # noqa: BLE001
                     chk.fail(f"convert-raised|{u.shape}|{v.shape}", f"{u.spelling} -> {v.spelling} via {rn} raised {core.exc_name(e)}",
-                             {"python": snippet(f"a = unyt_array([{x!r}], {u.spelling!r}); B = {v.spelling!r}\n{code.replace('; ', chr(10))}\n")})
+                             {"python": snippet(guarded(f"a = unyt_array([{x!r}], {u.spelling!r}); B = {v.spelling!r}; Unit(B)") + f"{code.replace('; ', chr(10))}\n")})
                     continue
                 chk.case(("conv", u.name, v.name, rn))
                 g = vals(r)[0]
@@ -516,7 +522,7 @@ def run(tier, seed):
                     got = g
                 if not t_near(g, want, sc) or repr(r.units) != v.name:
                     chk.fail(f"wrong-value|convert|{u.shape}|{v.shape}", f"{x} [{u.spelling}] -> {v.spelling} via {rn} gave {g} [{r.units!r}]; the affine map gives {float(want)}",
-                             {"python": snippet(f"a = unyt_array([{x!r}], {u.spelling!r}); B = {v.spelling!r}\n{code.replace('; ', chr(10))}\n"
+                             {"python": snippet(guarded(f"a = unyt_array([{x!r}], {u.spelling!r}); B = {v.spelling!r}; Unit(B)") + f"{code.replace('; ', chr(10))}\n"
                                                 f"want = t_reading('point', {v.name!r}, t_abs({u.name!r}, {x!r}))\nassert t_near(float(r.d[0]), want, {sc!r}) and repr(r.units) == {v.name!r}, (r, float(want))\n"), "route": rn})
             f, o = u.unit.get_conversion_factor(v.unit)
             ask(f"c08.conv\t{u.wire}\t{v.wire}\t{f2b(x)}", ("conv", u, v, x, f, o, got, sc))
